@@ -379,6 +379,12 @@ class PrettyPrinter:
         if isinstance(value, dict) and not value:
             raise ValueError(f"The property {attr} has an empty dictionary as a value")
 
+        # a schema wrapped in a single-element allOf (a $ref with extra annotations)
+        # is formatted according to the wrapped schema
+        all_of = attr_props.get("allOf") if isinstance(attr_props, dict) else None
+        if all_of and len(all_of) == 1 and isinstance(all_of[0], dict):
+            attr_props = all_of[0]
+
         if any(i in ["enum"] for i in attr_props):
             if not isinstance(value, numbers.Number):
                 if attr == "compop":
